@@ -289,6 +289,43 @@ def long_stream_cases(ctx, seed):
                 run.close()
 
 
+def failing_stream_item_cases(ctx, seed):
+    """A streamed list with non-null items whose j-th item fails asynchronously (a non-null leaf resolves to null) while
+    later items are in flight and the source keeps producing: completions land near-simultaneously (the scheduler releases
+    a second awaitable 0..14 loop iterations after each one), so the source's next item can arrive in the middle of the
+    clean-up of the failed stream.  No consumer stop: the stream must end by itself, with nothing left behind."""
+    schema = c04.rich_inc()
+    sel = ['id name', 'score', 'id best { name }', 'name id'][seed % 4]
+    src = 'query Q { users @stream(initialCount: %d) { %s } }' % (seed % 2, sel)
+    doc = parse(src)
+    inner = make_value(schema, seed, 0.0)
+    n_items = 3 + seed % 4
+    bad = (seed // 4) % 3 + (seed % 2)
+
+    def value_fn(path, parent_type_name, field_name, args, return_type):
+        p = list(path)
+        if p == ['users']:
+            return [{'__typename': 'User', '__pk': ('users', i)} for i in range(n_items)]
+        if len(p) == 3 and p[0] == 'users' and p[1] == bad and field_name in ('id', 'score'):
+            return None
+        return inner(path, parent_type_name, field_name, args, return_type)
+    base_case = {"seed": seed, "source": src, "variables": {}, "fault_rate": 0.0, "failing_stream_item": bad}
+    for early in (True, False):
+        for j in range(24):
+            ctx.count("failing_stream_item_runs")
+            sseed = seed * 100 + j
+            pol = ['random', 'slow-consumer', 'source-first', 'lifo'][j % 4]
+            case = {**base_case, "schedule_seed": sseed, "p_async": 1.0, "policy": pol, "early": early, "stop": "None", "with_signal": False}
+            run, sched, hz, obs = run_incremental(schema, doc, {}, value_fn, sseed, p_async=1.0, policy=pol, early=early, stop=None,
+                                                  p_iter=1.0, p_item_async=0.0, source_burst=1, p_double=1.0)
+            try:
+                ctx.case()
+                ctx.count("failure_only_runs")
+                verdicts(ctx, run, sched, hz, obs, None, early, src, case)
+            finally:
+                run.close()
+
+
 def run_shard(ctx):
     from ..mon import loop
     loop.selftest()
@@ -297,6 +334,8 @@ def run_shard(ctx):
         check_request(ctx, base + k, k)
     for k in range(ctx.n(1, 6)):
         long_stream_cases(ctx, base + 31 * k)
+    for k in range(ctx.n(6, 60)):
+        failing_stream_item_cases(ctx, base + 17 * k)
     # the template families (streams on async sources, fragments split into several units of work, overlapping and
     # list-nested fragments) get a share of their own: they are where stops meet half-built incremental state
     for k in range(ctx.n(800, 12000)):
@@ -308,4 +347,6 @@ def run_shard(ctx):
 def replay(ctx, case):
     if case.get("long_stream"):
         return long_stream_cases(ctx, case["seed"])
+    if "failing_stream_item" in case:
+        return failing_stream_item_cases(ctx, case["seed"])
     check_request(ctx, case["seed"], 1)
